@@ -88,6 +88,18 @@ func rowA1(tb *table, in addrIn) (map[string]interface{}, error) {
 		o["key"], o["kerr"], o["key2"] = tb.absAddr(key), kerr != nil, tb.absAddr(key2)
 		o["clean"], o["cerr"], o["clean2"] = tb.absAddr(clean), cerr != nil, tb.absAddr(clean2)
 		o["dkey"], o["dkey2"] = tb.absDomain(dkey), tb.absDomain(dkey2)
+		// the key of the canonical spelling of the same address, the key after CleanDomain
+		canon := Addr{Lab{in.A.Lp.B, "lower"}, nil}
+		for _, l := range in.A.Dom {
+			canon.Dom = append(canon.Dom, Lab{l.B, "lower"})
+		}
+		cs, cerr2 := tb.address(canon)
+		if cerr2 != nil {
+			panic(cerr2)
+		}
+		kcanon, _ := address.ForLookup(cs)
+		ckey, _ := address.ForLookup(clean)
+		o["kcanon"], o["ckey"] = tb.absAddr(kcanon), tb.absAddr(ckey)
 		o["eqself"] = address.Equal(a, string(append([]byte{}, a...)))
 		mbox, dom, serr := address.Split(a)
 		o["split"] = map[string]interface{}{"ok": serr == nil, "joined": tb.absAddr(mbox + "@" + dom)}
@@ -186,6 +198,25 @@ func rowS(in strIn) (map[string]interface{}, error) {
 	return o, nil
 }
 
+type domIn struct {
+	D []string `json:"d"`
+}
+
+// crash-freedom on a degenerate domain: bare, behind a plain and behind a quoted local part
+func rowD(in domIn) (map[string]interface{}, error) {
+	d, err := concretise(in.D)
+	if err != nil {
+		return nil, err
+	}
+	panics := []string{}
+	for _, s := range []string{d, "a@" + d, `"q q"@` + d, d + "@" + d} {
+		battery(&panics, s)
+		guard(&panics, "address.Equal(x, lower)", func() { address.Equal(s, "a@example.org"); address.Equal("a@example.org", s) })
+		guard(&panics, "dns.Equal(x, y)", func() { dns.Equal(d, "example.org"); dns.Equal("example.org", d) })
+	}
+	return map[string]interface{}{"panics": panics}, nil
+}
+
 type strsIn struct {
 	S []string `json:"s"`
 	T []string `json:"t"`
@@ -251,7 +282,13 @@ func TestReplay(t *testing.T) {
 			t.Fatalf("bad case line: %v", err)
 		}
 		var o map[string]interface{}
-		if c.Kind == "P2" || c.Kind == "P3" {
+		if c.Kind == "D" {
+			var di domIn
+			if err := json.Unmarshal(c.Raw, &di); err != nil {
+				t.Fatalf("case %d: %v", c.ID, err)
+			}
+			o, err = rowD(di)
+		} else if c.Kind == "P2" || c.Kind == "P3" {
 			var pi strsIn
 			if err := json.Unmarshal(c.Raw, &pi); err != nil {
 				t.Fatalf("case %d: %v", c.ID, err)
